@@ -75,6 +75,20 @@ def load (acl : Acl) (de : List Nat → Option Entry) (deHeader : List Nat → O
     | none => none
   | _ => none
 
+/-! ### the replication status of the fresh store after `LoadFromSnapshot` -/
+
+/-- the largest clock time of a list of entries (0 for none) -/
+def maxClockOf (es : List Entry) : Int := es.foldl (fun m e => if m < (e.time : Int) then (e.time : Int) else m) 0
+
+/-- `LoadFromSnapshot` on a fresh store (status 0/0, empty log), in the order of the Go code: the
+largest clock over `counted` raises the maximum while the store's log is still empty; then the
+rebuilt log `L` is joined and `recalculateReplicationStatus` runs with the same argument.
+`counted` is what the clock is taken over: the entries of the rebuilt log after the `fix:` commit
+(finding F23), every record read from the file before it. -/
+def statusAfterLoad (counted : List Entry) (L : Log) : Status :=
+  let mc := maxClockOf counted
+  recalcStatus L.entries.length (recalcMax 0 {} mc) mc
+
 /-! ### `SaveSnapshot` takes no lock: its three reads of the log may see three different states -/
 
 /-- the header `SaveSnapshot` builds when `oplog.Heads()` is read in state `L1` and `oplog.Len()`
